@@ -34,6 +34,7 @@ def run(e, R, tier):
         L.r_block_mgr,
         C.r_feeder,
         C.r_feeder_hook,
+        C.r_user_fmt,
         B.r_waitset,
         B.r_broken_order,
         B.r_mgr_total,
